@@ -16,7 +16,7 @@ RULE = ("histories on a real bus connection over an in-memory scripted fake bus 
         "run-until-idle, in any order; a per-case seed decides how many executor ticks (0-2) are interposed before each poll of "
         "the foreground future, so queued removals run before, between and after the foreground actions. ALL histories of "
         "length <= 3 (quick) / <= 4 (thorough) over 14 operation templates; random histories of length 8-60, 70% steered away "
-        "from the two known classes so that the oracle stays in force over the whole history. non-trivial = at least 3 ops, an "
+        "from the known class (request_name) so that the oracle stays in force over the whole history. non-trivial = at least 3 ops, an "
         "AddMatch and a RemoveMatch were seen")
 TRUSTED = ["harness hbus: custom Socket + fake bus (records AddMatch/RemoveMatch, answers GetNameOwner with an owner or "
            "NameHasNoOwner), single-threaded driver ticking Connection::executor()",
@@ -32,7 +32,7 @@ ASSUMPTIONS = ["the bus answers AddMatch / RemoveMatch / GetNameOwner (no error 
                "a well-known destination); proxy with a well-known destination = NameOwnerChanged rule from its first signal "
                "stream until dropped"]
 PARTIAL = ["C37_mirror_partial", "C37_refcount_partial", "C37_in_use_registered_partial", "C37_registered_accounted_partial",
-           "C37_no_premature_remove_partial", "C37_oracle_sound_partial", "C37_full_statement_refuted", "C37_clone_uncounted_refuted",
+           "C37_no_premature_remove_partial", "C37_oracle_sound_partial", "C37_full_statement_refuted",
            "C37_name_rules_leak_refuted"]
 
 
@@ -140,7 +140,7 @@ class Hist:
         if r < 0.24:
             self.stream()
         elif r < 0.30:
-            self.clone() if self.known_ok else self.stream()
+            self.clone()
         elif r < 0.48:
             self.drop()
         elif r < 0.60:
@@ -217,12 +217,12 @@ def gen(rng, tier):
             c = from_templates(rng, seq)
             if c:
                 yield c
-    for _ in range(3000 if quick else 30000):
+    for _ in range(1500 if quick else 30000):
         c = from_templates(rng, [rng.choice(TEMPLATES) for _ in range(rng.randint(4, 7))])
         if c:
             yield c
     # 2. random histories
-    for _ in range(2500 if quick else 25000):
+    for _ in range(1500 if quick else 25000):
         h = Hist(rng, known_ok=rng.random() < 0.3)
         for _ in range(rng.randint(8, 60 if rng.random() < 0.3 else 25)):
             h.step()
@@ -278,14 +278,15 @@ LEVEL_TEXT = ("Theorems in coq/theories/Properties/C37.v about a transition syst
               "(OnceLock check, add, set-or-undo as three separate actions) and SignalStream creation: for EVERY interleaving of any "
               "number of concurrent API calls and queued removal tasks (invariants of step*), what the bus has registered is "
               "exactly the rules with a refcount entry that are signal rules, no AddMatch arrives for a registered rule and no "
-              "RemoveMatch for an unregistered one (full strength, all operations); outside two explicitly defined classes of "
-              "operations the refcount equals live holders + queued removals (+ futures mid-way through the owner-change "
+              "RemoveMatch for an unregistered one, every live subscription is shared by a live object (full strength, all "
+              "operations); outside one explicitly defined class of operations (request_name) the refcount equals live holders + queued removals (+ futures mid-way through the owner-change "
               "subscription), hence when nothing is in flight the registered rules are exactly the signal rules with a live "
               "subscriber, a rule in use is always registered, and the action that sends RemoveMatch(r) leaves no live holder of "
               "r; and the executable oracle that judges the implementation's output accepts every sequential run of the model "
-              "(so it asks for nothing the invariants do not give). PARTIAL: the full statement is refuted by the faithful model (a cloned MessageStream is not counted, so dropping "
-              "the clone unregisters the rule under the original; the NameAcquired/NameLost rules added by request_name are never "
-              "removed); both confirmed on the real code and listed as known findings.")
+              "(so it asks for nothing the invariants do not give). Clones of a MessageStream share one subscription that the last of "
+              "them gives back (the former class clone_uncounted, repaired by 3c4a83a4, is now covered at full strength). PARTIAL: "
+              "the full statement is refuted by the faithful model (the NameAcquired/NameLost rules added by request_name are never "
+              "removed); confirmed on the real code and listed as a known finding.")
 LEVEL_NOTE = ("Trusted: Coq kernel; the hand-written model, tied to the code by running the real bus-connection code over a scripted "
               "fake bus on ~7k (quick) histories under seeded schedules and checking that the AddMatch/RemoveMatch calls seen during "
               "every API call are a run of the model under some schedule (executable search, every move a proved step) and satisfy "
